@@ -58,10 +58,36 @@ Proof.
   - apply symbol_value in H. change semicolon with s_semi in H. rewrite H. rewrite orb_true_r. reflexivity.
 Qed.
 
-(* the scan of a return type inside an inner sequence closed by ")" or ";" fails *)
-Lemma ubt_inner g : inner g -> forall B, hd_ok closer B -> until_brace_type (g ++ B) 0 = false.
+Lemma ubt_plains_deep ps : forallb plain ps = true -> forall (d : Z) rest, (0 < d)%Z ->
+  until_brace_type (ps ++ rest) d = until_brace_type rest d.
 Proof.
-  induction 1 as [|t r Ht Hr IH|o g c r Ho Hg IHg Hc Hr IHr]; intros B HB.
+  induction ps as [|t ps IH]; intros H d rest Hd; [reflexivity|].
+  cbn [forallb] in H. apply andb_prop in H as [Ht H]. apply plain_inv in Ht as (H1 & H2 & _ & _).
+  cbn [app]. rewrite ubt_deep_plain by assumption. apply IH; assumption.
+Qed.
+
+(* inside a group (depth >= 1) a parameter list with flat brace groups is consumed entirely *)
+Lemma ubt_binner_deep ok g : binner ok g -> forall (d : Z) rest, (0 < d)%Z ->
+  until_brace_type (g ++ rest) d = until_brace_type rest d.
+Proof.
+  induction 1 as [ok|ok t r Ht Hr IH|ok o g c r Ho Hg IHg Hc Hr IHr|o flat c r Ho Hflat Hc Hr IH]; intros d rest Hd.
+  - reflexivity.
+  - apply plain_inv in Ht as (H1 & H2 & _ & _). cbn [app]. rewrite ubt_deep_plain by assumption. apply IH. exact Hd.
+  - replace ((o :: g ++ c :: r) ++ rest) with (o :: g ++ c :: (r ++ rest)) by (norm_app; reflexivity).
+    rewrite ubt_deep_lparen by assumption. rewrite IHg by lia. rewrite ubt_deep_rparen by (assumption || lia).
+    replace (d + 1 - 1)%Z with d by lia. apply IHr. exact Hd.
+  - replace ((o :: flat ++ c :: r) ++ rest) with (o :: flat ++ c :: (r ++ rest)) by (norm_app; reflexivity).
+    rewrite (ubt_deep_plain o _ d Hd (lbrace_not_lparen o Ho) (lbrace_not_rparen o Ho)).
+    rewrite (ubt_plains_deep flat Hflat) by assumption.
+    rewrite (ubt_deep_plain c _ d Hd (rbrace_not_lparen c Hc) (rbrace_not_rparen c Hc)).
+    apply IH. exact Hd.
+Qed.
+
+(* the scan of a return type over the rest of a parenthesis group after a ")" at this depth (no brace group
+   follows at this depth), closed by ")" or ";", fails *)
+Lemma ubt_bfalse ok r : binner ok r -> ok = false -> forall B, hd_ok closer B -> until_brace_type (r ++ B) 0 = false.
+Proof.
+  induction 1 as [ok|ok t r Ht Hr IH|ok o g c r Ho Hg IHg Hc Hr IHr|o flat c r Ho Hflat Hc Hr IH]; intros Hok B HB.
   - cbn [app]. destruct B as [|b B]; [reflexivity|]. cbn [hd_ok] in HB.
     pose proof (closer_inv b HB) as (_ & H1 & H2 & _ & _). rewrite ubt_top by exact H2.
     unfold is_lbrace in H1. rewrite H1, (closer_text b HB). reflexivity.
@@ -69,32 +95,43 @@ Proof.
     unfold is_lbrace in H3. rewrite H3.
     destruct (pystr_eqb (t_value t) lbrace || pystr_eqb (t_value t) s_semi
               || pystr_eqb (t_value t) lparen || pystr_eqb (t_value t) rparen); [reflexivity|].
-    apply IH. exact HB.
+    apply IH; assumption.
   - replace ((o :: g ++ c :: r) ++ B) with (o :: g ++ c :: (r ++ B)) by (norm_app; reflexivity).
-    rewrite ubt_top_lparen by exact Ho. rewrite (ubt_inner_deep g Hg 1%Z) by lia.
-    rewrite ubt_deep_rparen by (assumption || lia). replace (1 - 1)%Z with 0%Z by lia. apply IHr. exact HB.
+    rewrite ubt_top_lparen by exact Ho. rewrite (ubt_binner_deep true g Hg 1%Z) by lia.
+    rewrite ubt_deep_rparen by (assumption || lia). replace (1 - 1)%Z with 0%Z by lia. apply IHr; [reflexivity | exact HB].
+  - discriminate.
 Qed.
-
-Lemma ubt_isuf v : isuf v -> until_brace_type v 0 = false.
-Proof. intros (g & B & -> & Hg & HB). apply ubt_inner; assumption. Qed.
 
 Lemma follow_rettype_unfold w j :
   follow_rettype w j = sym_at w j lbrace || (op_at w j s_colon && until_brace_type (skipn (S j) w) 0).
 Proof. reflexivity. Qed.
 
+Lemma rettype_bfalse ok r : binner ok r -> ok = false -> forall B, hd_ok closer B ->
+  follow_rettype (r ++ B) (groups_len (r ++ B) 0) = false.
+Proof.
+  induction 1 as [ok|ok t r Ht Hr IH|ok o g c r Ho Hg IHg Hc Hr IHr|o flat c r Ho Hflat Hc Hr IH]; intros Hok B HB.
+  - cbn [app]. destruct B as [|b B]; [reflexivity|]. cbn [hd_ok] in HB.
+    pose proof (closer_inv b HB) as (_ & H1 & H2 & _ & _). rewrite groups_len_outside_stop by exact H2.
+    rewrite follow_rettype_unfold. unfold sym_at, op_at. cbn [nth_error]. unfold is_lbrace in H1. rewrite H1.
+    unfold closer in HB. apply orb_prop in HB as [HB|HB]; rewrite (symbol_not_operator _ _ s_colon HB); reflexivity.
+  - pose proof (plain_inv t Ht) as (H1 & _ & H3 & _). cbn [app]. rewrite groups_len_outside_stop by exact H1.
+    rewrite follow_rettype_unfold. unfold sym_at, op_at. cbn [nth_error skipn]. unfold is_lbrace in H3. rewrite H3.
+    rewrite (ubt_bfalse ok r Hr Hok B HB). apply andb_false_r.
+  - replace ((o :: g ++ c :: r) ++ B) with (o :: g ++ c :: (r ++ B)) by (norm_app; reflexivity).
+    rewrite groups_len_outside_lparen by exact Ho.
+    rewrite (groups_len_binner true g Hg 1%Z) by lia.
+    rewrite groups_len_inside_rparen by (assumption || lia).
+    replace (1 - 1)%Z with 0%Z by lia.
+    replace (S (length g + S (groups_len (r ++ B) 0))) with (length (o :: g ++ [c]) + groups_len (r ++ B) 0) by (norm_len; lia).
+    replace (o :: g ++ c :: r ++ B) with ((o :: g ++ [c]) ++ (r ++ B)) by (norm_app; reflexivity).
+    rewrite fshift_rettype. apply IHr; [reflexivity | exact HB].
+  - discriminate.
+Qed.
+
 Lemma isuf_rejects_rettype : isuf_rejects follow_rettype.
 Proof.
-  intros v (g & B & -> & Hg & HB).
-  destruct (inner_run_not_lbrace g Hg B (closer_stop B HB)) as [Hle Hsym].
-  rewrite follow_rettype_unfold, Hsym. cbn [orb].
-  set (e := groups_len (g ++ B) 0) in *.
-  destruct (Nat.eq_dec e (length g)) as [Ee|Ne].
-  - assert (Eo : op_at (g ++ B) e s_colon = false).
-    { unfold op_at. rewrite Ee, nth_error_app2 by lia. rewrite Nat.sub_diag. destruct B as [|b B]; [reflexivity|].
-      cbn [nth_error hd_ok] in *. unfold closer in HB. apply orb_prop in HB as [HB|HB]; eapply symbol_not_operator; exact HB. }
-    rewrite Eo. reflexivity.
-  - rewrite (ubt_isuf (skipn (S e) (g ++ B))); [apply andb_false_r|].
-    apply isuf_skipn; [exact Hg | exact HB | lia].
+  intros v Hv Hlp. destruct (isuf_lparen_shape v Hv Hlp) as (o & g & c & r & B & -> & Ho & Hg & Hc & Hr & HB & ->).
+  rewrite fshift_rettype. apply (rettype_bfalse false r Hr eq_refl B HB).
 Qed.
 
 Lemma good_function_rettype l : good l cand_function follow_rettype.
@@ -180,7 +217,7 @@ Proof. intros (r & o & B & -> & Hr & Ho). apply type_seq_run; assumption. Qed.
 Lemma ts_arrow_tail pre v j : tsuf v -> groups_end (pre ++ v) (length pre) = Some j ->
   sym_at (pre ++ v) j s_arrow = true -> sym_at (pre ++ v) (S j) lbrace = false.
 Proof.
-  intros Hv E. apply groups_end_pre in E. subst j. rewrite sym_at_shift.
+  intros Hv E. apply groups_end_pre in E as [-> _]. rewrite sym_at_shift.
   replace (S (length pre + groups_len v 0)) with (length pre + S (groups_len v 0)) by lia.
   rewrite sym_at_shift. apply (tsuf_run _ Hv).
 Qed.
